@@ -70,7 +70,12 @@ def run(ctx):
         for copy, lf, label, mapping in (("ss", None, "scalar", {}), ("ll", None, "list-list", {("elem", "L"): L, ("elem", "R"): R}),
                                          ("ls", True, "list-scalar", {("elem", "E"): L, ("role", "O"): R}), ("ls", False, "scalar-list", {("elem", "E"): R, ("role", "O"): L})):
             vals, a = copy_vals(copy, op, lf, mapping)
-            ctx.inst("C12.R1", "%s#%s" % (op, label), S.verdict(tuple(vals), (S.resort(oracle[op]),)), "%s computes %s; canonical set %s" % (label, [S.show(v) for v in vals], CANON[op]), H.loc(a["body"]) if a else None)
+            v_ = S.verdict(tuple(vals), (S.resort(oracle[op]),))
+            # no value recognised, or operands that could not be tied to the element variables (the copy hands the lists to helper
+            # closures): restructured beyond what is modelled
+            if v_ is False and (not vals or any(S.contains_head(x_, "wholelist") for x_ in vals)):
+                v_ = None
+            ctx.inst("C12.R1", "%s#%s" % (op, label), v_, "%s computes %s; canonical set %s" % (label, [S.show(v) for v in vals], CANON[op]), H.loc(a["body"]) if a else None)
         dop = "Dot" + op
         a = C.op_arm(C.dot_match, dop)
         env = S.Env(roles={C.lhs: L, C.rhs: R})
@@ -182,7 +187,10 @@ def run(ctx):
                                      ("ls", True, "list-scalar", {("elem", "E"): L, ("role", "O"): R}), ("ls", False, "scalar-list", {("elem", "E"): R, ("role", "O"): L})):
         v1, a1 = copy_vals(copy, "Equal", lf, mapping)
         v2, a2 = copy_vals(copy, "NotEqual", lf, mapping)
-        ctx.inst("C12.R2", "Equal/NotEqual#%s" % label, S.both(S.verdict(tuple(v1), (S.resort(eq),)), S.verdict(tuple(v2), (S.resort(ne),))), "== computes %s, != computes %s" % ([S.show(v) for v in v1], [S.show(v) for v in v2]), H.loc(a2["body"]) if a2 else None)
+        vb_ = S.both(S.verdict(tuple(v1), (S.resort(eq),)), S.verdict(tuple(v2), (S.resort(ne),)))
+        if vb_ is False and (not v1 or not v2 or any(S.contains_head(x_, "wholelist") for x_ in v1 + v2)):
+            vb_ = None   # nothing recognised / operands not tied to the element variables: restructured beyond what is modelled
+        ctx.inst("C12.R2", "Equal/NotEqual#%s" % label, vb_, "== computes %s, != computes %s" % ([S.show(v) for v in v1], [S.show(v) for v in v2]), H.loc(a2["body"]) if a2 else None)
     for dop, want in (("DotEqual", eq), ("DotNotEqual", ne)):
         a = C.op_arm(C.dot_match, dop)
         lv = []
